@@ -189,6 +189,24 @@ def run(ctx):
                     conds_all.append(conds)
                 okf = bool(conds_all) and all(c_ == {"u", "v"} for c_ in conds_all)
                 detail = str(conds_all)
+            if not okf:
+                # the same selection written as a loop: every push onto the vector that becomes the edge
+                # argument is controlled by contains(.., e.u) == true and contains(.., e.v) == true
+                edge_locals = {n[1] for (bp, n) in esl if bp == b.path and n[0] == "L"}
+                pushes = []
+                for t in b.calls():
+                    if t.callee and t.callee.short.endswith("Vec::push") and t.args and any(o[0] == "L" and o[1] in edge_locals and "Edge<" in b.local_ty(o[1]) for o in fl._operand_pts(t.args[0])):
+                        pushes.append(t)
+                conds_all = []
+                for t in pushes:
+                    conds = set()
+                    for (te, v, a) in controlling_atoms(fl, t.bb):
+                        if isinstance(te, tuple) and te[0] == "call" and te[1].endswith("HashSet::contains") and v is True:
+                            conds.add(fmt_desc(panic.shape(panic.norm(te[2][1]))).split(".")[-1])
+                    conds_all.append(conds)
+                if pushes:
+                    okf = all(c_ >= {"u", "v"} for c_ in conds_all)
+                    detail = str(conds_all)
             ctx.require(okf, "R-C15-4", "edges|get_subgraph", "an edge is kept only if both its endpoints are members of S", "the edge filter keeps an edge under %s" % detail, loc_str(c.span))
     g = Guards(prog, flows)
     check_refusal(ctx, g, "R-C15-5", prog.one("convert::Graph::reverse"), "directed", False, "undirected graphs")
